@@ -399,4 +399,173 @@ theorem rootFromBranchBytes_eq (H : Bytes → Bytes) (leaf : Bytes) (br : List B
   simp only [this, if_false, hl, ne_eq, not_true_eq_false]
   exact rootFromBranchBytesLoop_eq H br leaf _ hall
 
+/-- the depth of a branch depends on the number of leaves only -/
+theorem branch_length_eq (h h' : α → α → α) : ∀ (n : Nat) (l l' : List α) (i i' : Nat), l.length ≤ n →
+    l.length = l'.length → (branch h l i).length = (branch h' l' i').length := by
+  intro n
+  induction n with
+  | zero =>
+    intro l l' i i' hl he
+    have e1 : l = [] := List.eq_nil_of_length_eq_zero (by omega)
+    have e2 : l' = [] := List.eq_nil_of_length_eq_zero (by omega)
+    subst e1 e2; simp [branch]
+  | succ k ih =>
+    intro l l' i i' hl he
+    match l, l', he with
+    | [], [], _ => simp [branch]
+    | [_], [_], _ => simp [branch]
+    | a :: b :: rest, a' :: b' :: rest', he =>
+      rw [branch, branch]
+      simp only [List.length_cons, Nat.add_right_cancel_iff]
+      apply ih
+      · have := nextLevel_length h (a :: b :: rest)
+        simp only [List.length_cons] at this hl ⊢
+        omega
+      · rw [nextLevel_length, nextLevel_length, he]
+
+/-! ### the `check_inner_node` callback (CVE-2017-12842) -/
+
+/-- the checked verifier accepts exactly when the plain one does and no pair hashed on the way up is one
+    the callback refuses: an accepted proof never passes through a node that is a serialized transaction. -/
+theorem checked_ok_iff [DecidableEq α] (h : α → α → α) (bad : α → α → Bool) : ∀ (br : List α) (x r : α) (i : Nat),
+    rootFromBranchChecked h bad x br i = .ok r ↔
+      rootFromBranch h x br i = .ok r ∧ ∀ p ∈ pathPairs h x br i, bad p.1 p.2 = false := by
+  intro br
+  induction br with
+  | nil =>
+    intro x r i
+    simp [rootFromBranchChecked, rootFromBranch, pathPairs]
+  | cons s bs ih =>
+    intro x r i
+    simp only [rootFromBranchChecked, rootFromBranch, pathPairs]
+    by_cases hi : i % 2 = 1
+    · simp only [hi, if_true]
+      by_cases hs : s = x
+      · simp [hs]
+      · simp only [hs, if_false]
+        cases hb : bad s x with
+        | true =>
+          simp only [if_true, List.mem_cons, forall_eq_or_imp, hb]
+          simp
+        | false =>
+          simp only [Bool.false_eq_true, if_false, List.mem_cons, forall_eq_or_imp, hb, true_and]
+          exact ih _ _ _
+    · simp only [hi, if_false]
+      cases hb : bad x s with
+      | true =>
+        simp only [if_true, List.mem_cons, forall_eq_or_imp, hb]
+        simp
+      | false =>
+        simp only [Bool.false_eq_true, if_false, List.mem_cons, forall_eq_or_imp, hb, true_and]
+        exact ih _ _ _
+
+theorem rootFromBranchBytesCheckedLoop_eq (H : Bytes → Bytes) (isTx : Bytes → Bool) : ∀ (br : List Bytes) (r : Bytes) (i : Nat),
+    (∀ s ∈ br, s.length = 32) →
+    rootFromBranchBytesCheckedLoop H isTx r br i =
+      rootFromBranchChecked (fun a b => H (a ++ b)) (fun a b => isTx (a ++ b)) r br i := by
+  intro br
+  induction br with
+  | nil => intro r i _; simp [rootFromBranchBytesCheckedLoop, rootFromBranchChecked]
+  | cons s bs ih =>
+    intro r i hall
+    have hs : s.length = 32 := hall s (by simp)
+    have hbs : ∀ t ∈ bs, t.length = 32 := fun t ht => hall t (by simp [ht])
+    simp only [rootFromBranchBytesCheckedLoop, rootFromBranchChecked, hs, ne_eq, not_true_eq_false, if_false]
+    rw [ih _ _ hbs, ih _ _ hbs]
+
+/-! ### indexes past the last leaf (the verifier's side of CVE-2012-2459) -/
+
+theorem rootLoop_unmutated_step [DecidableEq α] (h : α → α → α) (a b : α) (rest : List α) (r : α)
+    (hr : rootLoop h (a :: b :: rest) false = some (r, false)) :
+    rootLoop h (nextLevel h (a :: b :: rest)) false = some (r, false) := by
+  rw [rootLoop, rootLoop_flag_eq h _ _ (Nat.le_refl _)] at hr
+  cases hn : rootLoop h (nextLevel h (a :: b :: rest)) false with
+  | none => rw [hn] at hr; simp at hr
+  | some p =>
+    rw [hn] at hr
+    obtain ⟨r', m'⟩ := p
+    simp only [Option.map_some, Option.some.injEq, Prod.mk.injEq, Bool.or_eq_false_iff] at hr
+    obtain ⟨h1, _, h3⟩ := hr
+    rw [h1, h3]
+
+/-- no leaf position past the end verifies: in an unmutated tree, a proof of the honest depth accepted at an
+    index `≥` the number of leaves (the phantom copies of a duplicated last node) exhibits a collision. -/
+theorem out_of_range_loop [DecidableEq α] (h : α → α → α) (r : α) : ∀ (n : Nat) (l : List α), l.length ≤ n →
+    rootLoop h l false = some (r, false) → ∀ (i : Nat) (y : α) (br' : List α), l.length ≤ i →
+    br'.length = (branch h l 0).length → rootFromBranch h y br' i = .ok r →
+    ∃ a b c d, (a, b) ≠ (c, d) ∧ h a b = h c d := by
+  intro n
+  induction n with
+  | zero =>
+    intro l hl hr
+    have : l = [] := List.eq_nil_of_length_eq_zero (by omega)
+    subst this; simp [rootLoop] at hr
+  | succ k ih =>
+    intro l hl hr i y br' hi hlen hv
+    match l, hl, hr, hi, hlen with
+    | [], _, hr, _, _ => simp [rootLoop] at hr
+    | [a], _, _, hi, hlen =>
+      have : br' = [] := List.eq_nil_of_length_eq_zero (by simpa [branch] using hlen)
+      subst this
+      simp only [rootFromBranch] at hv
+      simp only [List.length_cons, List.length_nil] at hi
+      have : i ≠ 0 := by omega
+      simp [this] at hv
+    | a :: b :: rest, hl, hr, hi, hlen =>
+      have hr' := rootLoop_unmutated_step h a b rest r hr
+      have hnl := nextLevel_length h (a :: b :: rest)
+      have hk : (nextLevel h (a :: b :: rest)).length ≤ k := by
+        simp only [List.length_cons] at hnl hl ⊢; omega
+      rw [branch] at hlen
+      match br', hlen with
+      | s :: bs, hlen =>
+        have hbs : bs.length = (branch h (nextLevel h (a :: b :: rest)) 0).length := by
+          have := branch_length_eq h h (nextLevel h (a :: b :: rest)).length (nextLevel h (a :: b :: rest))
+            (nextLevel h (a :: b :: rest)) (0 / 2) 0 (Nat.le_refl _) rfl
+          simp only [List.length_cons, Nat.add_right_cancel_iff] at hlen
+          rw [hlen, this]
+        simp only [rootFromBranch] at hv
+        by_cases hin : (nextLevel h (a :: b :: rest)).length ≤ i / 2
+        · -- still past the end one level up
+          by_cases hodd : i % 2 = 1
+          · simp only [hodd, if_true] at hv
+            split at hv
+            · cases hv
+            · exact ih _ hk hr' (i / 2) _ bs hin hbs hv
+          · simp only [hodd, if_false] at hv
+            exact ih _ hk hr' (i / 2) _ bs hin hbs hv
+        · -- i is the phantom copy of the odd last leaf
+          simp only [List.length_cons] at hnl hi hin
+          have hodd : i % 2 = 1 := by omega
+          simp only [hodd, if_true] at hv
+          split at hv
+          · cases hv
+          · rename_i hsy
+            have hlast : (a :: b :: rest)[i - 1]? = some ((a :: b :: rest)[i - 1]'(by simp only [List.length_cons]; omega)) :=
+              List.getElem?_eq_getElem _
+            generalize hz : (a :: b :: rest)[i - 1]'(by simp only [List.length_cons]; omega) = z at hlast
+            have hget := nextLevel_get h a (a :: b :: rest) (i - 1) z hlast
+            have he : (i - 1) % 2 = 0 := by omega
+            have hhalf : (i - 1) / 2 = i / 2 := by omega
+            have hsib : sibling (a :: b :: rest) (i - 1) a = z := by
+              unfold sibling sibIdx
+              have h1 : ¬ (i - 1) % 2 = 1 := by omega
+              simp only [h1, if_false]
+              have h2 : (a :: b :: rest)[i - 1 + 1]? = none := by
+                apply List.getElem?_eq_none_iff.mpr
+                simp only [List.length_cons]; omega
+              rw [h2, hlast]; rfl
+            have h1 : ¬ (i - 1) % 2 = 1 := by omega
+            simp only [h1, if_false, hsib, hhalf] at hget
+            have hlen2 : bs.length = (branch h (nextLevel h (a :: b :: rest)) (i / 2)).length := by
+              rw [hbs]
+              exact branch_length_eq h h _ _ _ 0 (i / 2) (Nat.le_refl _) rfl
+            rcases branch_sound_tree h (nextLevel h (a :: b :: rest)) (i / 2) (h z z) (h s y) r bs hget hr' hlen2 hv
+              with e | c
+            · refine ⟨s, y, z, z, ?_, e⟩
+              intro hp
+              simp only [Prod.mk.injEq] at hp
+              exact hsy (hp.1.trans hp.2.symm)
+            · exact c
+
 end Btc.Merkle
